@@ -165,6 +165,26 @@ CHECKS = {
     note="The raising clause is judged for statements that reach the grammar (skip-word lines are skipped in both settings by design); "
          "TLC, PLY, CPython trusted.",
     design="DESIGN.md 4 (C16)", technique=TECH + " (Assembler.tla + generators of TableFold/Registry/Entities/Clauses)"),
+ "C06": dict(
+    text="TLC model-checks NameIsID (and FreshAtStart, ClauseMode) of spec/Lexer.tla - t_ID and its helpers transcribed branch for branch, "
+         "validated token by token against the real lexer with zero drift - over statement templates (CREATE TABLE with qualified name and "
+         "column names in first / after-comma positions, constraints, references, ALTER, CREATE INDEX, CREATE SEQUENCE) with one word per "
+         "keyword signature class (from the working tree's tokens.py) and every identifier form in every name slot, and must refute it "
+         "when the name-position guard is removed. Replay: every behaviour through the real lexer (types and flags); every identifier "
+         "form (lower, Mixed, UPPER, double-quoted, backticked, bracketed) in 26 naming positions and all 87 non-excluded grammar keywords as "
+         "column names in 3 positions through the API: names verbatim, and normalize_names=True equal to the plain output with exactly one "
+         "outer delimiter pair stripped from every identifier.",
+    note="One representative identifier per form; naming positions are a statement catalogue; TLC, PLY, CPython trusted.",
+    design="DESIGN.md 3.3, 4 (C06), Appendix B", technique=TECH + " (Lexer.tla)"),
+ "C09": dict(
+    text="TLC model-checks DepthTracked / CommaInAngle / TypeClosed / TypeStartsLT of spec/Lexer.tla on one statement template per spelling "
+         "of the recursive type grammar (ARRAY<T>, MAP<K,V>, STRUCT<f:T,...> to depth 3, three comma spacings, both field syntaxes), and "
+         "TypeStartsLT must be refuted exactly on the spellings whose first word contains `>` (recorded deviation). Replay: every template "
+         "through the real lexer; every spelling and the size / array-suffix / two-word forms at column position 1..3 with following "
+         "options through the API: one balanced type string equal to the spelling up to white space, the size where given, options kept, "
+         "both neighbours intact.",
+    note="Base types STRING / INT; quick tier uses a width-limited type set; TLC, PLY, CPython trusted.",
+    design="DESIGN.md 3.3, 4 (C09)", technique=TECH + " (Lexer.tla)"),
 }
 NOT_YET = {}
 def main():
